@@ -755,7 +755,7 @@ pub fn run_c26(args: &Args) {
         "C26",
         "modelcheck c26",
         args,
-        "for each generated model the valid request is mutated: unknown node ids (NodeId::from_u32 beyond the graph), operator ids used as inputs or outputs, duplicated input or output ids (appended, and replacing another id so that the request has the same length as the valid request whose plan is in the cache), a missing required input, an input with the wrong dtype, wrong rank or a wrong fixed dimension, alone and in pairs, through run and partial_run; every such request must return Err and must not panic. Valid variations (extra unused inputs) are run too so that the check does not demand errors where none is due. non-trivial = a mutated request (not the control); distinct by (case, mutation)",
+        "for each generated model the valid request is mutated: unknown node ids (NodeId::from_u32 beyond the graph), operator ids used as inputs or outputs, duplicated input or output ids (appended, and replacing another id so that the request has the same length as the valid request whose plan is in the cache), a missing required input, a graph input that is not supplied but requested as an output, an input with the wrong dtype, wrong rank or a wrong fixed dimension, alone and in pairs, through run and partial_run; every such request must return Err and must not panic. Valid variations (extra unused inputs) are run too so that the check does not demand errors where none is due. non-trivial = a mutated request (not the control); distinct by (case, mutation)",
     );
     let cases = cases_from(args, "dag,cflow");
     let mut rng = Rng::derive(args.seed, 0xC26 + args.shard as u64);
@@ -796,6 +796,8 @@ pub fn run_c26(args: &Args) {
             /// but one id replaced by a duplicate of another.
             DupInputSameLen,
             DupOutputSameLen,
+            /// A graph input that is not supplied is requested as an output.
+            UnsuppliedInputAsOutput(usize),
             MissingInput(usize),
             WrongDtype(usize),
             WrongRank(usize),
@@ -819,6 +821,7 @@ pub fn run_c26(args: &Args) {
         // a request without input i that still succeeds means i was not required.
         for i in 0..inputs.len() {
             muts.push(Mut::MissingInput(i));
+            muts.push(Mut::UnsuppliedInputAsOutput(i));
             muts.push(Mut::WrongDtype(i));
             // An input declared without a shape has no rank to contradict.
             if decl[&inputs[i].name].is_array() {
@@ -865,6 +868,18 @@ pub fn run_c26(args: &Args) {
                         let n = outs.len();
                         outs[n - 1] = outs[0];
                     }
+                    Mut::UnsuppliedInputAsOutput(i) => {
+                        ins.remove(*i);
+                        if rng.bool() {
+                            outs.push(in_ids[*i]);
+                        } else {
+                            outs = vec![in_ids[*i]];
+                        }
+                        // partial_run may legitimately return nothing for it.
+                        if via_partial {
+                            err_required = false;
+                        }
+                    }
                     Mut::MissingInput(i) => {
                         ins.remove(*i);
                         // Only an error if the input is required for these outputs; partial_run
@@ -909,7 +924,7 @@ pub fn run_c26(args: &Args) {
                 }
                 let mname = format!("{:?}", m).split('(').next().unwrap().to_string();
                 rep.count(&format!("mut_{}", mname));
-                rep.nontrivial(&(&c.id, &mname, via_partial, match m { Mut::MissingInput(i) | Mut::WrongDtype(i) | Mut::WrongRank(i) | Mut::WrongFixedDim(i) => *i, _ => 0 }));
+                rep.nontrivial(&(&c.id, &mname, via_partial, match m { Mut::MissingInput(i) | Mut::UnsuppliedInputAsOutput(i) | Mut::WrongDtype(i) | Mut::WrongRank(i) | Mut::WrongFixedDim(i) => *i, _ => 0 }));
                 let res: Result<Result<(), String>, String> = if via_partial {
                     catch(|| model.partial_run(ins, &outs, None).map(|_| ()).map_err(|e| format!("{}", e)))
                 } else {
